@@ -363,6 +363,13 @@ Proof.
       - intros z [->|Hz]; [left; reflexivity | right; apply I; assumption].
       - intro H. inversion H; subst. constructor; [|apply N; assumption].
         intro Hin. apply I in Hin. contradiction. }
+    destruct (ob_in_transfer (oblp_ca l) (obsb_sess x)).
+    { destruct (ob_notify_subs p r tl (ob_lp_pend l)) as [[[tl' pd] l'] outs] eqn:E.
+      specialize (IH (ob_lp_pend l)). rewrite E in IH. cbn [fst map] in *. destruct IH as [I N].
+      rewrite Hg. split.
+      - intros z [->|Hz]; [left; reflexivity | right; apply I; assumption].
+      - intro H. inversion H; subst. constructor; [|apply N; assumption].
+        intro Hin. apply I in Hin. contradiction. }
     destruct (obrs_err r).
     { match goal with |- context [ob_notify_subs p r tl ?L] =>
         destruct (ob_notify_subs p r tl L) as [[[tl' pd] l'] outs] eqn:E; specialize (IH L) end.
@@ -399,6 +406,10 @@ Proof.
       intros z [<-|Hz] Hd; [|eapply I1; eassumption].
       apply andb_true_iff in C1. destruct C1 as [_ C1]. rewrite Hd in C1. discriminate. }
     destruct (ob_blocked p (obrs_mode r) (oblp_ca l) x).
+    { destruct (ob_notify_subs p r tl (ob_lp_pend l)) as [[[tl' pd0] l0] outs0] eqn:E.
+      inversion H; subst. destruct (IH _ _ _ _ _ E) as [I1 [I2 I3]].
+      split; [auto|]. split; intros _; apply I3; reflexivity. }
+    destruct (ob_in_transfer (oblp_ca l) (obsb_sess x)).
     { destruct (ob_notify_subs p r tl (ob_lp_pend l)) as [[[tl' pd0] l0] outs0] eqn:E.
       inversion H; subst. destruct (IH _ _ _ _ _ E) as [I1 [I2 I3]].
       split; [auto|]. split; intros _; apply I3; reflexivity. }
